@@ -75,6 +75,10 @@ def value_tables(ptc_cases, rho0):
                 vals[("anti", ts[0], tl)] = measure(rec, rho0, d, m, eng.A_DIAG)     # Tr(A(tl) rho B(tb))
             if ids == (4, 8) and ts[0] <= ts[1] <= tl:
                 vals[("3op", ts[0], ts[1], tl)] = measure(rec, rho0, d, m, C_DIAG)
+            if ids == (4, 9) and ts[0] <= ts[1] <= tl:
+                vals[("3lll", ts[0], ts[1], tl)] = measure(rec, rho0, d, m, C_DIAG)   # <C(tl) K(t2) A(t1)>, all from the left
+            if ids == (4, 8, 9) and ts[0] <= ts[1] <= ts[2] <= tl:
+                vals[("4op", ts[0], ts[1], ts[2], tl)] = measure(rec, rho0, d, m, C_DIAG)
     return vals
 
 
@@ -104,9 +108,17 @@ def run_corr(job):
                                                      start_time=start, progress_type="silent")
             times = [times[1], times[0]]
             corr = corr.T
-        else:
+        elif mode == "3op":
             times, corr = oqupy.compute_correlations_nt(system, pt, [a_op, b_op, c_op], pys,
                                                         ["left", "right", "left"], initial_state=rho0,
+                                                        start_time=start, progress_type="silent")
+        elif mode == "3lll":
+            times, corr = oqupy.compute_correlations_nt(system, pt, [a_op, eng.k_operator(d), c_op], pys,
+                                                        ["left", "left", "left"], initial_state=rho0,
+                                                        start_time=start, progress_type="silent")
+        else:
+            times, corr = oqupy.compute_correlations_nt(system, pt, [a_op, b_op, eng.k_operator(d), c_op], pys,
+                                                        ["left", "right", "left", "left"], initial_state=rho0,
                                                         start_time=start, progress_type="silent")
     except IndexError as ex:
         if case["error"]:
@@ -232,7 +244,10 @@ def run(ctx):
     n = 3
     # ---- exact correlation values from the joint-evolution reference semantics
     ctl = ("{ {<<t, FALSE, 4, 1, \"int\">>} : t \\in 0..%d } \\cup { {<<t, FALSE, 8, 1, \"int\">>} : t \\in 0..%d } "
-           "\\cup { {<<t, FALSE, 4, 1, \"int\">>, <<u, FALSE, 8, 2, \"int\">>} : t \\in 0..%d, u \\in 0..%d }" % (n, n, n, n))
+           "\\cup { {<<t, FALSE, 4, 1, \"int\">>, <<u, FALSE, 8, 2, \"int\">>} : t \\in 0..%d, u \\in 0..%d }"
+           "\\cup { {<<t, FALSE, 4, 1, \"int\">>, <<u, FALSE, 9, 2, \"int\">>} : t \\in 0..%d, u \\in 0..%d }"
+           "\\cup { {<<t, FALSE, 4, 1, \"int\">>, <<u, FALSE, 8, 2, \"int\">>, <<v, FALSE, 9, 3, \"int\">>} : "
+           "t \\in 0..%d, u \\in 0..%d, v \\in 0..%d }" % (n, n, n, n, n, n, n, n, n))
     bases = []
     def plan(nsteps, h1, h2, envs):
         items = []
@@ -249,7 +264,13 @@ def run(ctx):
             ("values: 4-level system + 4-level ancilla (SWAP memory)",
              {"D": "4", "EDims": "<<4>>", "A0": "<<2>>", "N": str(n), "M": "8",
               "SysGates": "{<<1,2>>,<<0,3>>}", "EnvGates": '{"SW","CS"}',
-              "FixedPlan": plan(n, "<<1,2>>", "<<0,3>>", ["CS", "SW", "SW"])})]:
+              "FixedPlan": plan(n, "<<1,2>>", "<<0,3>>", ["CS", "SW", "SW"])}),
+            # a coherence-preserving environment (the ancilla only steers the system): needed where an operator
+            # acts on one side only and the value must survive the trace over the ancilla
+            ("values: 4-level system + classical ancilla (controlled phase / shift)",
+             {"D": "4", "EDims": "<<4>>", "A0": "<<1>>", "N": str(n), "M": "8",
+              "SysGates": "{<<1,2>>,<<0,3>>}", "EnvGates": '{"CP"}',
+              "FixedPlan": plan(n, "<<1,2>>", "<<0,3>>", ["CP", "CP", "CP"])})]:
         r = ctx.tlc("PTContract", PTC_CFG, label=label, workers=4,
                     constants=dict(consts, Controls=ctl, Devs="{}", Dephase="FALSE", Emit="TRUE"))
         d = int(consts["D"])
@@ -258,7 +279,7 @@ def run(ctx):
         base = dict(r.cases[0], ctl=[], recs=[])
         bases.append((base, vals))
         # discriminating power: distinct time tuples must have distinct values
-        for mode in ("ord", "anti", "3op"):
+        for mode in (("ord", "anti", "3op") if len(bases) < 3 else ("3lll", "4op")):
             vs = [v for k, v in vals.items() if k[0] == mode]
             if min(abs(a - b) for i, a in enumerate(vs) for b in vs[i + 1:]) < 1e-6:
                 raise core.MachineryError("correlation values do not identify the time tuple (%s, %s)" % (label, mode))
@@ -284,8 +305,19 @@ def run(ctx):
     for i, case in enumerate(three.cases):
         if i % (2 if quick else 1) == 0:
             jobs.append({"case": case, "mode": "3op", "bi": i % 2})
+        if i % (2 if quick else 1) == 1 or not quick:
+            jobs.append({"case": case, "mode": "3lll", "bi": (i // 2) % 2})
+    tiny = ('{[k |-> "slice", a |-> 99, b |-> 99, s |-> 99], [k |-> "list", v |-> <<3,1,0>>], [k |-> "list", v |-> <<2,3>>], '
+            '[k |-> "int", v |-> 1], [k |-> "ival", q1 |-> 12, q2 |-> 4]}')
+    four = ctx.tlc("Correlations", CORR_CFG, label="4 operators", workers=1,
+                   constants={"N": str(n), "SpecSets": "<<%s, %s, %s, %s>>" % (tiny, tiny, tiny, tiny), "Devs": "{}",
+                              "Emit": "TRUE"})
+    for i, case in enumerate(four.cases):
+        if i % (3 if quick else 1) == 0:
+            jobs.append({"case": case, "mode": "4op", "bi": i % 2})
     for jn, j in enumerate(jobs):
-        base, vals = bases[j.pop("bi")]
+        base, vals = bases[2 if j["mode"] in ("3lll", "4op") else j.pop("bi")]
+        j.pop("bi", None)
         j.update(base=base, vals=vals, seed=ctx.seed, start=(0.0, 0.5, -0.75)[jn % 3])
     res = core.pmap(run_corr, jobs, chunksize=16)
     for job, mm in zip(jobs, res):
